@@ -16,7 +16,7 @@ import os, re, sys
 
 REPO = os.environ.get("VERIF_REPO", "/repo")
 VERIF = os.path.dirname(os.path.dirname(os.path.abspath(__file__)))
-OUT = os.path.join(VERIF, "lean", "DicomModel", "Gen", "VrCompat.lean")
+OUT = os.path.join(os.environ.get("VERIF_LEAN_DIR") or os.path.join(VERIF, "lean"), "DicomModel", "Gen", "VrCompat.lean")
 SRC = "encoding/src/decode/adaptive_le.rs"
 KINDS = ["Exact", "Xs", "Ox", "Px", "Lt"]
 VRS = ("AE AS AT CS DA DS DT FL FD IS LO LT OB OD OF OL OV OW PN SH SL SQ SS ST SV TM UC UI UL UN UR US UT UV").split()
